@@ -11,6 +11,7 @@
    the byte at target address a. *)
 From VM Require Import Prelude.MachInt Prelude.Outcome Prelude.C1314List Impl.Io Impl.IoGuest Spec.C14 Suite.C14 Proofs.C14.
 From VM Require Impl.Guest Proofs.LinkIoGuest.
+From VM Require Import Impl.Std Spec.C14own Suite.C14own Proofs.C14own.
 
 (* the model satisfies the executable checker on every well-formed case *)
 Theorem C14_model_ok : forall c, wf14 c = true -> ok_C14 c (run_C14 c) = true.
@@ -211,3 +212,148 @@ Print Assumptions C14_read_exact_volatile_from_is_C03s.
 Print Assumptions C14_write_volatile_to_is_C03s.
 Print Assumptions C14_write_all_volatile_to_is_C03s.
 Print Assumptions C14_vec_sink_is_all_writer.
+
+(* ---------------------------------------------------------------------------------------------
+   THE CRATE'S OWN ENDPOINTS (suite C14own; Spec/C14own.v, Suite/C14own.v, Proofs/C14own.v).
+   The same entry points - VolatileSlice / GuestRegionMmap / GuestMemoryMmap read_volatile_from,
+   read_exact_volatile_from, write_volatile_to, write_all_volatile_to - driven with the stream endpoints the crate
+   itself provides, as modelled in Impl/Io.v: &[u8], Cursor<T> (position anywhere, also past the end), &mut [u8],
+   Vec<u8>, and REAL descriptors (regular file, byte queue) whose read(2) / write(2) calls follow a script of ANY
+   length (FFull | FShort k | FZero | FEintr | FErr, then the real call for ever).  The up-to forms make one
+   read_volatile / write_volatile call inside retry_eintr!; the exact forms call the ENDPOINT's read_exact_volatile /
+   write_all_volatile - specialised for &[u8], Cursor, &mut [u8], the provided loops for Vec<u8> and descriptors.
+   [exec14own c] runs the model with fuel length(script) + length(memory) + 2; [logof_c c f] is the list of
+   behaviours of the calls the endpoint received (the script, then Full); [src_now] / [sink_now] read the reader's
+   remaining bytes / the bytes the writer gained off the endpoint's final state.  The judge is the unchanged [ok_C14]. *)
+
+(* the model satisfies the executable checker on every well-formed case: any script, memory, layout, count *)
+Theorem C14own_model_ok : forall c, wf14own c = true -> ok_C14own c (run_C14own c) = true.
+Proof. exact C14own_model_ok_lemma. Qed.
+
+(* never out of fuel, never a panic (Vec length, Cursor position, window arithmetic, try_access all stay in range) *)
+Theorem C14own_terminates : forall c, wf14own c = true -> exists f m rc, exec14own c = Val ((f, m), rc).
+Proof. exact C14own_terminates_lemma. Qed.
+
+(* an interruption is never reported ... *)
+Theorem C14own_eintr_never_reported : forall c f m rk a b, wf14own c = true ->
+  exec14own c = Val ((f, m), (rk, a, b)) -> rk <> 4.
+Proof. exact C14own_eintr_never_reported_lemma. Qed.
+
+(* ... and never the last call: it is always retried *)
+Theorem C14own_eintr_retried : forall c f m rk a b, wf14own c = true ->
+  exec14own c = Val ((f, m), (rk, a, b)) -> last (logof_c c f) Zero <> Eintr.
+Proof. exact C14own_eintr_retried_lemma. Qed.
+
+(* a hard error is reported, and nothing else is reported as one *)
+Theorem C14own_harderr_reported : forall c f m rk a b, wf14own c = true ->
+  exec14own c = Val ((f, m), (rk, a, b)) -> (In HardErr (logof_c c f) <-> rk = 5).
+Proof. exact C14own_harderr_reported_lemma. Qed.
+
+(* ... it ends the transfer *)
+Theorem C14own_harderr_ends : forall c f m rk a b, wf14own c = true ->
+  exec14own c = Val ((f, m), (rk, a, b)) -> rk = 5 ->
+  last (logof_c c f) Zero = HardErr /\ ~ In HardErr (removelast (logof_c c f)).
+Proof. exact C14own_harderr_ends_lemma. Qed.
+
+(* conservation, without the boolean checker: k <= count bytes moved; reads: the endpoint lost exactly its first k
+   source bytes and they are stored at addr, addr+1, ... (flat_write through the address map), writes: memory is
+   unchanged and the sink gained exactly the k guest bytes at addr, addr+1, ...; exact forms: success iff k = count
+   (no hard error, count > 0 or start address inside the target); up-to forms: Ok(a) has a = k *)
+Theorem C14own_conserved : forall c f m rk a b, wf14own c = true -> exec14own c = Val ((f, m), (rk, a, b)) ->
+  exists k, k <= w_count c
+    /\ (if is_read (w_op c)
+        then src_now (w_ek c) (f_st f) = ndrop k (src_of (w_ek c) (w_content c) (w_pos c))
+             /\ k <= nlen (src_of (w_ek c) (w_content c) (w_pos c))
+             /\ flat_write (w_target c) (w_mem c) (w_addr c) (ntake k (src_of (w_ek c) (w_content c) (w_pos c))) = Some m
+        else m = w_mem c
+             /\ nlen (sink_now (w_ek c) (nlen (w_content c)) (w_pos c) (f_st f)) = k
+             /\ flat_read (w_target c) (w_mem c) (w_addr c) (N.to_nat k)
+                = Some (sink_now (w_ek c) (nlen (w_content c)) (w_pos c) (f_st f)))
+    /\ (if is_exact (w_op c)
+        then rk <> 0 /\ (~ In HardErr (logof_c c f) -> (0 < w_count c \/ idx_of (w_target c) (w_addr c) <> None) ->
+                         (rk = 1 <-> k = w_count c))
+        else rk <> 1 /\ (rk = 0 -> a = k)).
+Proof. exact C14own_conserved_lemma. Qed.
+
+(* the k above is what an observer sees: how far the reader's position moved / how many bytes left the queue,
+   resp. the bytes that appeared in the sink (Spec/C14own.v moved_rd / sink_of on the model's observation) *)
+Theorem C14own_observed : forall c f m rk a b, wf14own c = true -> exec14own c = Val ((f, m), (rk, a, b)) ->
+  run_C14own c = obs_of c f m rk a b
+  /\ (if is_read (w_op c)
+      then src_now (w_ek c) (f_st f) = ndrop (moved_rd (w_ek c) (w_content c) (w_pos c) (run_C14own c))
+                                            (src_of (w_ek c) (w_content c) (w_pos c))
+      else sink_of (w_ek c) (w_content c) (w_pos c) (run_C14own c)
+           = sink_now (w_ek c) (nlen (w_content c)) (w_pos c) (f_st f)).
+Proof. exact C14own_observed_lemma. Qed.
+
+(* ANY endpoint.  The proof is generic: for every stream (call = its read_volatile / write_volatile, ex = its
+   read_exact_volatile / write_all_volatile) over the descriptor state that honours the ONE-CALL CONTRACT [CallSpec]
+   (a call consumes one script element; EINTR / hard error move nothing; otherwise Ok k with k <= the window, exactly k
+   bytes moved between the stream's byte list [pj] and the window) and the EXACT CONTRACT [ExactSpec] (Ok iff the whole
+   window was moved, zero-progress = UnexpectedEof / WriteZero, hard error passed on), the slice / region / guest-memory
+   operation terminates and satisfies the post-condition [PostL] from which everything above follows: conservation
+   through the address map, k <= count, the result-kind rules, the log rules.  The provided loops satisfy the exact
+   contract for every stream that honours the call contract (Proofs/C14own.v exact_volatile_spec). *)
+Theorem C14_any_endpoint_post : forall (rd : bool) (pj : sfd -> list N) (Extra : sfd -> N -> sfd -> Prop)
+    (call : callT sfd) (sc0 : list fbeh) (InvB : N -> sfd -> Prop) (zerr : ioerr),
+  (forall f, Extra f 0 f) ->
+  (forall f k1 f1 k2 f2, Extra f k1 f1 -> Extra f1 k2 f2 -> Extra f (k1 + k2) f2) ->
+  zerr = EUnexpectedEof \/ zerr = EWriteZero ->
+  CallSpec rd pj Extra call InvB ->
+  forall (ex : exactT) (F : nat), ExactSpec rd pj Extra sc0 InvB zerr ex F ->
+  forall c, wf14 (case14_of c) = true -> F = fuel14own c -> sc0 = w_script c -> InvB (nlen (w_mem c)) (init_of c) ->
+  exists f' m' rc, exec_ep call ex c = Val ((f', m'), rc)
+    /\ PostL rd pj Extra sc0 (is_exact (w_op c)) (w_target c) (w_addr c) (w_count c) (init_of c) (w_mem c) f' m' rc.
+Proof. exact exec_ep_post. Qed.
+
+(* every endpoint of the suite honours both contracts (&[u8], Cursor, &mut [u8], Vec<u8>, scripted file / queue) *)
+Theorem C14own_endpoints_honour_contracts : forall md ek rd n0 p0 sc0 F, ek_rw ek rd = true ->
+  CallSpec rd (pj_of ek rd n0 p0) (extra_of ek rd) (e_call (endpoint_of md ek rd)) (inv_of ek rd n0 p0)
+  /\ ExactSpec rd (pj_of ek rd n0 p0) (extra_of ek rd) sc0 (inv_of ek rd n0 p0) (zerr_of rd)
+       (e_exact (endpoint_of md ek rd) F) F.
+Proof. exact ep_contracts_lemma. Qed.
+
+(* the generalised transcriptions of Suite/C14own.v are IoGuest.v's when the provided loop is plugged in *)
+Theorem C14own_exact_default_is_IoGuest : forall zerr fuel (call : callT sfd) self addr s m count,
+  vs_exact_e (exact_volatile zerr fuel call) self addr s m count = vs_exact zerr fuel call self addr s m count.
+Proof. exact vs_exact_e_default_lemma. Qed.
+
+Theorem C14own_gm_write_default_is_IoGuest : forall md fuel (call : callT sfd) L addr s m count,
+  gm_write_volatile_to_e md fuel (exact_volatile EWriteZero fuel call) L addr s m count
+  = gm_write_volatile_to md fuel call L addr s m count.
+Proof. exact gm_write_volatile_to_e_default_lemma. Qed.
+
+(* non-vacuity: (1) a 9-byte exact read across two adjacent regions from a regular file at offset 2 whose descriptor
+   answers [EINTR; short 3; EINTR; EINTR; short 1; then real calls] succeeds after 6 calls; (2) a Cursor positioned past
+   its end delivers nothing: PartialBuffer{9,0}, memory untouched, position unchanged; (3) a Vec sink gains the 7 guest
+   bytes behind its old contents; (4) a hard error after 3 bytes ends a guest write with rk 5 *)
+Example C14own_nonvacuous :
+  let L := [ {| g_start := 4096; g_len := 6; g_moff := 0 |}; {| g_start := 4102; g_len := 5; g_moff := 6 |} ] in
+  let mk := fun op ek sc content pos mem =>
+    {| w_mode := Debug; w_target := TGuest L; w_mem := mem; w_addr := 4098; w_count := 9; w_op := op; w_ek := ek;
+       w_script := sc; w_content := content; w_pos := pos |} in
+  let c1 := mk RdExact EFile [FEintr; FShort 3; FEintr; FEintr; FShort 1] [90;91;1;2;3;4;5;6;7;8;9;10;11;12] 2 (repeat 0 11) in
+  let c2 := mk RdExact ECurR [] [1;2;3;4] 18446744073709551615 (repeat 0 11) in
+  let c3 := {| w_mode := Debug; w_target := TGuest L; w_mem := [0;1;2;3;4;5;6;7;8;9;10]; w_addr := 4099; w_count := 7;
+               w_op := WrAll; w_ek := EVecW; w_script := []; w_content := [77]; w_pos := 0 |} in
+  let c4 := mk WrUpTo EQueue [FShort 3; FErr] [] 0 [0;1;2;3;4;5;6;7;8;9;10] in
+  wf14own c1 = true /\ y_rk (run_C14own c1) = 1 /\ y_mem (run_C14own c1) = [0;0;1;2;3;4;5;6;7;8;9]
+  /\ y_calls (run_C14own c1) = 6 /\ y_pos (run_C14own c1) = 11
+  /\ wf14own c2 = true /\ (y_rk (run_C14own c2), y_a (run_C14own c2), y_b (run_C14own c2)) = (8, 9, 0)
+  /\ y_mem (run_C14own c2) = repeat 0 11 /\ y_pos (run_C14own c2) = 18446744073709551615
+  /\ wf14own c3 = true /\ y_rk (run_C14own c3) = 1 /\ y_data (run_C14own c3) = [77;3;4;5;6;7;8;9]
+  /\ wf14own c4 = true /\ y_rk (run_C14own c4) = 5 /\ y_out (run_C14own c4) = [2;3;4] /\ y_calls (run_C14own c4) = 2.
+Proof. vm_compute. repeat split. Qed.
+
+Print Assumptions C14own_model_ok.
+Print Assumptions C14own_terminates.
+Print Assumptions C14own_eintr_never_reported.
+Print Assumptions C14own_eintr_retried.
+Print Assumptions C14own_harderr_reported.
+Print Assumptions C14own_harderr_ends.
+Print Assumptions C14own_conserved.
+Print Assumptions C14own_observed.
+Print Assumptions C14_any_endpoint_post.
+Print Assumptions C14own_endpoints_honour_contracts.
+Print Assumptions C14own_exact_default_is_IoGuest.
+Print Assumptions C14own_gm_write_default_is_IoGuest.
